@@ -1084,7 +1084,7 @@ impl MemWorld {
         for rel in shim::take_releases() {
             out.probe("release.observed");
             out.probe_n("release.bytes_inspected", rel.size as u64);
-            let owner = snaps.iter().find(|s| s.ptr != 0 && s.ptr == rel.base + page);
+            let owner = snaps.iter().find(|s| s.ptr != 0 && s.ptr >= rel.base && s.ptr < rel.base + rel.size);
             let path = match owner {
                 Some(s) if s.shrunk && (path_hint == "drop" || path_hint == "clone_drop") => "shrink_then_drop".to_string(),
                 Some(_) => path_hint.to_string(),
@@ -1096,7 +1096,7 @@ impl MemWorld {
                     "guard"
                 } else {
                     match owner {
-                        Some(s) if rel.first_nonzero_off < page + s.len => "data",
+                        Some(s) if rel.base + rel.first_nonzero_off < s.ptr + s.len => "data",
                         Some(_) => "spare",
                         None => "data",
                     }
